@@ -173,9 +173,15 @@ func init() {
 			for _, c := range vmGenCases(g, n, ex) {
 				g.emit(c.fields()...)
 			}
-			// programs that once faulted (repaired): non-string first arguments of strptime; a pattern
-			// constant among values (now refused by the compiler)
+			// programs that once faulted (repaired): a histogram counted up or down or read for its value,
+			// non-string first arguments of strptime, a pattern constant among values
 			for _, p := range []string{
+				"histogram h buckets 1, 2\n/x/ {\n  h++\n}\n",
+				"histogram h buckets 1, 2\n/(\\d+)/ {\n  h += $1\n}\n",
+				"histogram h by k buckets 1, 2\n/(\\w+)/ {\n  h[$1]--\n}\n",
+				"histogram h buckets 1, 2\ncounter c\n/x/ {\n  h > 5 {\n    c++\n  }\n}\n",
+				"histogram h buckets 1, 2\ngauge g\n/(\\d+)/ {\n  h = $1\n  g = h\n}\n",
+				"histogram h by k buckets 1, 2\ngauge g\n/(\\d+) (\\w+)/ {\n  h[$2] = $1\n  g = h[$2] + 1\n}\n",
 				"counter c\nconst FOO /x/\nFOO == (1 < 2) {\n  c++\n}\n",
 				"counter c by k\nconst FOO /x/\n/x/ {\n  c[FOO]++\n}\n",
 				"counter c\nconst FOO /x/\n/(\\d+)/ {\n  $1 > FOO {\n    c++\n  }\n}\n",
